@@ -297,7 +297,15 @@ pub fn run(u: &mut Universe, b: &Batch, st: &mut Stats) {
                             if k % shards != shard || (k / shards) % stride != 0 {
                                 continue;
                             }
-                            let case = fault_pair_case(&b.uni, li, vec![Dec { step: *w1, attack: vec![mv.clone()], ..Default::default() }, Dec { step: *w2, fault: Some(crate::sup::Fault::Errno(e)), ..Default::default() }]);
+                            let case = if e == libc::ENAMETOOLONG {
+                                // the moved directory now lives deeper than PATH_MAX: *every* later readlink
+                                // of a descriptor's path fails, not one
+                                let mut c = fault_pair_case(&b.uni, li, vec![Dec { step: *w1, attack: vec![mv.clone()], ..Default::default() }]);
+                                c.plan.sticky = Some((*w2, e));
+                                c
+                            } else {
+                                fault_pair_case(&b.uni, li, vec![Dec { step: *w1, attack: vec![mv.clone()], ..Default::default() }, Dec { step: *w2, fault: Some(crate::sup::Fault::Errno(e)), ..Default::default() }])
+                            };
                             let mut atk = Attacker::new(&w);
                             let mut out = run_case(u, &case, &mut atk, false);
                             if let Some(e) = &out.harness_error {
